@@ -33,17 +33,22 @@ harness!(se_h_c08_dec, c08_dec, {
     let mut d = new_decoder(e, param(8));
     let mut run = Run::new(param(9));
     run.max_calls = 4 * len + 16;
-    // flags (C05 / C06 reuse this harness): 1 = written units well-formed per call, 2 = String sink starts with content
+    // flags (C05 / C06 reuse this harness): 1 = written units well-formed per call, 2 = String sink starts with content,
+    // 4 = destinations BELOW the documented minimum (symbolic 0..=capacity, one value for the whole run): a call may stall
     run.wf_check = param(13) & 1 != 0;
     run.keep_prefix = param(13) & 2 != 0;
     run.str_fill = param(14);
+    if param(13) & 4 != 0 { run.stall_ok = true; run.sym_caps(0, param(9), 1); }
     if ncuts == 0 { push(&mut d, sink, repl, &src[..len], last_in_data, &mut run); }
     else {
         push(&mut d, sink, repl, &src[..c1], false, &mut run);
-        if ncuts >= 2 { push(&mut d, sink, repl, &src[c1..c2], false, &mut run); push(&mut d, sink, repl, &src[c2..len], last_in_data, &mut run); }
-        else { push(&mut d, sink, repl, &src[c1..len], last_in_data, &mut run); }
+        if ncuts >= 2 {
+            if !run.stalled { push(&mut d, sink, repl, &src[c1..c2], false, &mut run); }
+            if !run.stalled { push(&mut d, sink, repl, &src[c2..len], last_in_data, &mut run); }
+        } else if !run.stalled { push(&mut d, sink, repl, &src[c1..len], last_in_data, &mut run); }
     }
-    if !last_in_data { push(&mut d, sink, repl, &src[len..len], true, &mut run); }
+    if !last_in_data && !run.stalled { push(&mut d, sink, repl, &src[len..len], true, &mut run); }
+    if run.stalled { reach(37); reach(END); return; }
     check(run.finished, 1);
     check(run.total_read == len, 3);
     check(run.calls <= 4 * len + 16, 9);
@@ -82,10 +87,11 @@ harness!(se_h_c08_enc, c08_enc, {
     let mut run = Run::new(param(12));
     run.max_calls = 4 * units + 16;
     run.keep_prefix = param(13) & 2 != 0;
+    if param(13) & 4 != 0 { run.stall_ok = true; run.sym_caps(0, param(12), 1); }
     let kind = param(8);
     let bounds = [0usize, c1, c2, nch];
     let mut k = 0;
-    while k < 3 {
+    while k < 3 && !run.stalled {
         let from = bounds[k]; let to = bounds[k + 1];
         let last = last_in_data && k == 2;
         if form == SRC_UTF8 {
@@ -97,10 +103,11 @@ harness!(se_h_c08_enc, c08_enc, {
         }
         k += 1;
     }
-    if !last_in_data {
+    if !last_in_data && !run.stalled {
         if form == SRC_UTF8 { if repl { epush8_replace(&mut en, kind, "", true, &mut run); } else { epush8_noreplace(&mut en, kind, "", true, &mut run); } }
         else if repl { epush16_replace(&mut en, kind, &[], true, &mut run); } else { epush16_noreplace(&mut en, kind, &[], true, &mut run); }
     }
+    if run.stalled { reach(37); reach(END); return; }
     check(run.finished, 1);
     check(run.total_read == units, 3);
     check(run.calls <= 4 * units + 16, 9);
